@@ -324,12 +324,7 @@ func (k Keeper) newVestingAccount(ctx sdk.Context, toAddress sdk.AccAddress, amo
 	originalVestingCoin := sdk.NewCoin(denom, originalVestingAmount)
 	originalVesting := sdk.NewCoins(originalVestingCoin)
 
-	startTime := lockEnd
-	if lockEnd.Before(ctx.BlockTime()) {
-		startTime = ctx.BlockTime()
-	}
-
-	_, err := k.newContinuousVestingAccount(ctx, toAddress, originalVesting, startTime.Unix(), vestingEnd.Unix())
+	_, err := k.newContinuousVestingAccount(ctx, toAddress, originalVesting, lockEnd.Unix(), vestingEnd.Unix())
 	if err != nil {
 		k.Logger(ctx).Debug("new vesting account - to account creation error", "error", err.Error())
 		return sdkerrors.Wrap(err, fmt.Sprintf("new vesting account - to account creation error: %s", toAddress))
